@@ -150,7 +150,9 @@ var ops = []op{
 		return b.String()
 	}},
 	{"path", perNode(func(n *ajson.Node) string { return n.Path() })},
-	{"inheritors", perNode(func(n *ajson.Node) string { return strconv.Itoa(len(n.Inheritors())) + n.Key() + strconv.Itoa(n.Index()) })},
+	{"inheritors", perNode(func(n *ajson.Node) string {
+		return strconv.Itoa(len(n.Inheritors())) + n.Key() + strconv.Itoa(n.Index())
+	})},
 	{"jsonpath-descent", query("$..*")},
 	{"jsonpath-filter", query("$..[?(@.price > 9 || @ == 2.5 || @ == 'x')]")},
 	{"jsonpath-slice", query("$..[::-1]")},
@@ -190,6 +192,58 @@ func main() {
 		group = 4
 	}
 	mismatches := 0
+	// First use: before anything in this process has warmed any process-wide state, goroutines run operations the process has
+	// never run — each its own never-seen expression and path TEXT, on its own tree and on a shared one. A memo table, a lazily
+	// initialised registry or a pooled buffer shared between calls shows up here (and nowhere once it is warm).
+	{
+		shared := ajson.Must(ajson.Unmarshal([]byte(`{"a":[1,2,3],"b":{"c":4}}`)))
+		workers, per := 8, 60
+		if tier == "thorough" {
+			per = 400
+		}
+		bad := make([]int, workers)
+		var wg sync.WaitGroup
+		start := make(chan struct{})
+		for w := 0; w < workers; w++ {
+			wg.Add(1)
+			go func(w int) {
+				defer wg.Done()
+				own := ajson.Must(ajson.Unmarshal([]byte(fmt.Sprintf(`{"a":[1,2,3],"b":{"c":4},"w":%d}`, w))))
+				<-start
+				for i := 0; i < per; i++ {
+					k := w*100000 + i
+					for _, root := range []*ajson.Node{own, shared} {
+						res, err := ajson.Eval(root, fmt.Sprintf("@.b.c + %d", k))
+						if err != nil || res.MustNumeric() != float64(4+k) {
+							bad[w]++
+						}
+						nodes, err := root.JSONPath(fmt.Sprintf("$.a[?(@ > %d - %d)]", k, k))
+						if err != nil || len(nodes) != 3 {
+							bad[w]++
+						}
+					}
+					if cmds, err := ajson.ParseJSONPath(fmt.Sprintf("$.k%d['x%d'][%d]", k, k, i)); err != nil || len(cmds) != 4 {
+						bad[w]++
+					}
+					if n, err := ajson.Unmarshal([]byte(fmt.Sprintf(`{"k%d":[%d,"s%d"]}`, k, k, k))); err != nil || n.Size() != 1 {
+						bad[w]++
+					} else if out, err := ajson.Marshal(n); err != nil || len(out) == 0 {
+						bad[w]++
+					}
+				}
+			}(w)
+		}
+		close(start)
+		wg.Wait()
+		status := "ok"
+		for _, b := range bad {
+			if b > 0 {
+				status = "mismatch:first-use"
+				mismatches++
+			}
+		}
+		fmt.Printf("PAIR\t-1\tfirst-use\tfirst-use\t%s\n", status)
+	}
 	for di, d := range docs {
 		// sequential reference on a fresh tree per op
 		want := make([]string, len(ops))
